@@ -772,7 +772,10 @@ func (c *Core) finishClient(s *Sim, cl *Client) {
 		return // a task client's byte stream is only judged on undisturbed runs
 	}
 	intact := !cl.ep.IsReset() && cl.ended != "reset" && cl.ended != "close"
-	drained := intact && !cl.paused && cl.ep.InFlightIn() == 0 && cl.ep.ReadyIn() == 0 && cfg.WriteTimeout == 0 && cfg.ReadTimeout == 0
+	// with a write timeout configured a Write may fail half-way through a
+	// frame and leave its beginning on the wire; a Write that returned nil
+	// has still handed its whole frame to the socket
+	drained := intact && !cl.paused && cl.ep.InFlightIn() == 0 && cl.ep.ReadyIn() == 0 && cfg.ReadTimeout == 0
 	if cl.rxErr != "" && !cl.ep.IsReset() {
 		rule, prop := "stream", "C05"
 		if !strings.HasPrefix(cl.rxErr, "framing") {
@@ -784,7 +787,10 @@ func (c *Core) finishClient(s *Sim, cl *Client) {
 		}
 		return
 	}
-	if drained && len(cl.rx) > 0 {
+	if drained && cfg.WriteTimeout == 0 && c.stopCalls == 0 && len(cl.rx) > 0 {
+		// (once Stop is invoked pending writes get a deadline, and one that
+		// expires half-way through a frame ends the stream with a torn frame
+		// and a write error, which is not a successful Write)
 		s.Violate("C05", "stream", "trailing-partial-frame", fmt.Sprintf("%s: %d bytes left that are not a whole LDAPMessage", cl.name(), len(cl.rx)))
 	}
 	bystander := !cl.disturbed && cl.ended == "" && c.stopCalls == 0
